@@ -236,14 +236,14 @@ func actionCodeReplace(vnode *parser.RootVistor,
 
 	str := oneRule.ActionCode
 	str = strings.ReplaceAll(str, "$$",
-		fmt.Sprintf("dollarDolar.%s", pr.LeftPart.Tag))
+		fmt.Sprintf("dollarDolar.ValType.%s", pr.LeftPart.Tag))
 
 	// find the $ and digits
 	reg := regexp.MustCompile(`\$[0-9]+`)
 	str = reg.ReplaceAllStringFunc(str, func(s string) string {
 		index := s[1:]
 		i, _ := strconv.Atoi(index)
-		return fmt.Sprintf("Dollar[%d].%s", i, pr.RighPart[i-1].Tag)
+		return fmt.Sprintf("Dollar[%d].ValType.%s", i, pr.RighPart[i-1].Tag)
 	})
 	return strComment + str + "\n"
 }
